@@ -35,6 +35,10 @@ pub enum Op {
     PollReady,
     PollFlush,
     PollClose,
+    /// rebuild the Framed through one of its conversions, all of which carry both buffers and the
+    /// state over: 0 = into_parts + from_parts, 1 = into_map_io(identity), 2 = into_map_codec
+    /// (identity), 3 = replace_codec(an equal codec)
+    Convert { how: u8 },
 }
 
 #[derive(Clone, Debug, Serialize, Deserialize, PartialEq)]
@@ -43,6 +47,10 @@ pub struct Case {
     pub wscript: Vec<WStep>,
     pub fscript: Vec<FStep>,
     pub sscript: Vec<FStep>,
+    /// once `wscript` is used up the transport accepts this many bytes per write (0 = all): a
+    /// slow peer that makes one flush take hundreds of writes
+    #[serde(default)]
+    pub trickle: u16,
 }
 
 fn item(size: u16, fill: u8) -> Vec<u8> {
@@ -101,6 +109,7 @@ fn check_inner(c: &Case) -> CaseResult {
         wscript: c.wscript.iter().copied().collect(),
         fscript: c.fscript.iter().copied().collect(),
         sscript: c.sscript.iter().copied().collect(),
+        default_accept: c.trickle,
         ..Default::default()
     };
     let mut framed = Framed::new(io, LenU16::default());
@@ -108,6 +117,7 @@ fn check_inner(c: &Case) -> CaseResult {
     let mut obs = Obs::new();
     let (mut partial, mut straddle, mut ready_at_hw, mut close_seen, mut close_with_data, mut flush_with_data) = (false, false, false, false, false, false);
     let mut saw_err = false;
+    let (mut convert_with_data, mut many_writes) = (false, false);
 
     macro_rules! invariants {
         ($step:expr, $what:expr) => {{
@@ -170,6 +180,19 @@ fn check_inner(c: &Case) -> CaseResult {
                 vensure!(res.is_ok(), "C14/start-send-error", "step {}: write failed: {:?}", step, res.err());
                 invariants!(step, "write");
             }
+            Op::Convert { how } => {
+                convert_with_data |= buffered_before > 0;
+                framed = match how % 4 {
+                    0 => Framed::from_parts(framed.into_parts()),
+                    1 => framed.into_map_io(|io| io),
+                    2 => framed.into_map_codec(|c| c),
+                    _ => {
+                        let codec = framed.codec_ref().clone();
+                        framed.replace_codec(codec)
+                    }
+                };
+                invariants!(step, "conversion");
+            }
             Op::PollFlush | Op::PollClose => {
                 let is_close = matches!(op, Op::PollClose);
                 let r = if is_close {
@@ -185,6 +208,7 @@ fn check_inner(c: &Case) -> CaseResult {
                 let want = justified(&evs).map_err(|e| vcore::Fail::new("C14/result-unjustified", format!("step {} {}: {}", step, name, e)))?;
                 vensure!(r == want, "C14/result-unjustified", "step {}: {} returned {:?}, transport events {:?} justify {:?}", step, name, r, evs, want);
                 partial |= evs.iter().any(|e| matches!(e, Ev::Wrote(n) if *n < buffered_before));
+                many_writes |= evs.iter().filter(|e| matches!(e, Ev::Wrote(_))).count() > 16;
                 let buffered = invariants!(step, name);
                 if r == Res::Ok {
                     vensure!(buffered == 0, if is_close { "C14/close-unflushed" } else { "C14/flush-unflushed" },
@@ -206,6 +230,7 @@ fn check_inner(c: &Case) -> CaseResult {
     // final drain with an all-accepting transport: everything accepted must reach the wire, in order
     framed.io_mut().wscript.clear();
     framed.io_mut().fscript.clear();
+    framed.io_mut().default_accept = 0;
     let (_cw, w) = count_waker();
     let mut cx = Context::from_waker(&w);
     let r = conv(Sink::<Vec<u8>>::poll_flush(Pin::new(&mut framed), &mut cx));
@@ -219,6 +244,8 @@ fn check_inner(c: &Case) -> CaseResult {
     obs.label_if(close_with_data, "close-with-buffered-data");
     obs.label_if(flush_with_data, "flush-with-buffered-data");
     obs.label_if(saw_err, "transport-error");
+    obs.label_if(convert_with_data, "conversion-with-buffered-data");
+    obs.label_if(many_writes, ">16-writes-in-one-call");
     Ok(obs)
 }
 
@@ -241,6 +268,7 @@ fn op() -> impl Strategy<Value = Op> {
         1 => Just(Op::PollReady),
         3 => Just(Op::PollFlush),
         2 => Just(Op::PollClose),
+        1 => any::<u8>().prop_map(|how| Op::Convert { how }),
     ]
 }
 
@@ -263,8 +291,9 @@ pub fn strategy() -> impl Strategy<Value = Case> {
         prop::collection::vec(wstep(), 0..24),
         prop::collection::vec(fstep(), 0..6),
         prop::collection::vec(fstep(), 0..4),
+        prop_oneof![3 => Just(0u16), 2 => prop::sample::select(vec![1u16, 3, 8, 64, 500])],
     )
-        .prop_map(|(ops, wscript, fscript, sscript)| Case { ops, wscript, fscript, sscript })
+        .prop_map(|(ops, wscript, fscript, sscript, trickle)| Case { ops, wscript, fscript, sscript, trickle })
 }
 
 pub fn case_from_bytes(data: &[u8]) -> Case {
@@ -275,12 +304,13 @@ pub fn case_from_bytes(data: &[u8]) -> Case {
         let b: u8 = u.arbitrary().unwrap_or(0);
         let s: u8 = u.arbitrary().unwrap_or(0);
         let size = SIZES[(s as usize) % SIZES.len()];
-        ops.push(match b % 8 {
+        ops.push(match b % 9 {
             0..=2 => Op::Send { size, fill: s },
             3 => Op::Write { size, fill: s },
             4 => Op::PollReady,
             5 | 6 => Op::PollFlush,
-            _ => Op::PollClose,
+            7 => Op::PollClose,
+            _ => Op::Convert { how: s },
         });
     }
     let mut wscript = vec![];
@@ -303,10 +333,11 @@ pub fn case_from_bytes(data: &[u8]) -> Case {
         });
     }
     let sscript = fs.split_off(fs.len().min(5));
-    Case { ops, wscript, fscript: fs, sscript }
+    let trickle = [0u16, 0, 0, 1, 3, 8, 64, 500][data.len() % 8];
+    Case { ops, wscript, fscript: fs, sscript, trickle }
 }
 
-const RULE: &str = "op lists over {Sink send (poll_ready then start_send), direct Framed::write, poll_ready, poll_flush, poll_close} with item sizes straddling 1 KiB / 8 KiB, on a scripted AsyncWrite (accept k / Pending / zero / error; flush and shutdown scripts); after every op: wire is a prefix of the accepted items' reference encoding, buffer-state accessors agree, each result is justified by the transport events of that call, flush/close Ready(Ok) only with nothing buffered (+transport flushed, +shutdown); final drain: wire == sent; non-trivial = an item straddles 1 KiB or 8 KiB, a partial write happened, and a poll_close or a poll_ready at/above the high-water mark occurred";
+const RULE: &str = "op lists over {Sink send (poll_ready then start_send), direct Framed::write, poll_ready, poll_flush, poll_close, rebuild the Framed through into_parts+from_parts / into_map_io / into_map_codec / replace_codec} with item sizes straddling 1 KiB / 8 KiB, on a scripted AsyncWrite (accept k / Pending / zero / error; flush and shutdown scripts; after the script a peer that takes everything or only 1..500 bytes per write, so that one flush can take far more than 16 writes); after every op: wire is a prefix of the accepted items' reference encoding, buffer-state accessors agree, each result is justified by the transport events of that call, flush/close Ready(Ok) only with nothing buffered (+transport flushed, +shutdown); final drain: wire == sent; non-trivial = an item straddles 1 KiB or 8 KiB, a partial write happened, and a poll_close or a poll_ready at/above the high-water mark occurred";
 
 pub fn run(ctx: &Ctx) {
     ctx.assume("the reference encoding (u16 BE length + payload) is computed by the harness; the transport mock records what it accepted");
@@ -318,6 +349,8 @@ pub fn run(ctx: &Ctx) {
             ("poll_ready-at-HW", 0.15),
             ("close-with-buffered-data", 0.15),
             ("transport-error", 0.1),
+            ("conversion-with-buffered-data", 0.1),
+            (">16-writes-in-one-call", 0.02),
         ]),
         strategy,
         check_case,
